@@ -389,7 +389,7 @@ func dispKey(d *imap.BodyStructureDisposition) string {
 func genLang(t *rapid.T, label string) []string {
 	var l []string
 	for i, n := 0, rapid.IntRange(0, 2).Draw(t, label+".n"); i < n; i++ {
-		l = append(l, rapid.SampledFrom([]string{"en", "fr-CA", "de", "x y"}).Draw(t, label))
+		l = append(l, rapid.SampledFrom([]string{"en", "fr-CA", "de", "x y", "en, fr", "a,b", " en", "(x)", ""}).Draw(t, label))
 	}
 	return l
 }
